@@ -33,6 +33,11 @@ ObsFn(r) == [s \in {r[i].s : i \in 1..Len(r)} |->
                LET i == CHOOSE j \in 1..Len(r) : r[j].s = s IN [b |-> r[i].b, x |-> r[i].x, y |-> r[i].y]]
 ExpFn(reg) == [s \in DOMAIN reg |-> [b |-> reg[s].b, x |-> Flag(reg[s].x), y |-> Flag(reg[s].y)]]
 ToReg(f) == [s \in DOMAIN f |-> Def(f[s].b, f[s].x = "set", f[s].y = "set")]
+\* does the observed registry denote an abstract registry at all?  (a projection such as
+\* "foreign:shading" or "variants-differ" says a registered style holds values no AddStyle gave it;
+\* that is reported once, by RegDiff, on the step where it appears; nothing is derived from such a state)
+Clean(f) == \A s \in DOMAIN f : /\ f[s].x \in {"set", "unset"} /\ f[s].y \in {"set", "unset"}
+                               /\ f[s].b \notin {"corrupt", "foreign", "variants-differ"}
 
 \* first field in which the observed registry differs from the specified one
 RegDiff(obs, exp) ==
@@ -52,7 +57,8 @@ Judge(e) ==
       cls  == IF HasQ(name) THEN EndClass(reg0, e.op.q) ELSE "-"
       diff == RegDiff(ObsFn(e.reg), ExpFn(exp.reg))
   IN
-  IF e.ret = "skipped" THEN {}      \* not executed (budget rule of the harness after a call that did not come back)
+  IF ~cur.ok THEN {}                \* the state before the call is not an abstract registry (already reported)
+  ELSE IF e.ret = "skipped" THEN {}      \* not executed (budget rule of the harness after a call that did not come back)
   ELSE IF e.ret \in Crashes THEN {<<"C14", e.ret, api, cls>>}
   ELSE
        (IF e.ret # Ret(cur, e.op) THEN {<<"C14", "ret", api, cls>>} ELSE {})
@@ -73,16 +79,16 @@ Judge(e) ==
   \cup (IF name = "MutRes" /\ e.ret = "ok" /\ e.alias
           THEN {<<"INFO-C14", "result-aliases-registry", IF e.self THEN "registered-object" ELSE "merged-copy">>} ELSE {})
 
-TInit == l = 1 /\ cur = InitSt /\ wit = {}
+TInit == l = 1 /\ cur = [reg |-> InitSt.reg, ok |-> TRUE] /\ wit = {}
 
 TReset == /\ l <= Len(Trace) /\ Trace[l].ev = "reset"
-          /\ cur' = InitSt /\ wit' = wit /\ l' = l + 1
+          /\ cur' = [reg |-> InitSt.reg, ok |-> TRUE] /\ wit' = wit /\ l' = l + 1
 
 TStep == /\ l <= Len(Trace) /\ Trace[l].ev = "step"
          /\ LET e == Trace[l] IN
               /\ wit' = AddWit(wit, Judge(e), e.case)
               \* resynchronise on what the implementation really holds
-              /\ cur' = [reg |-> ToReg(ObsFn(e.reg))]
+              /\ cur' = [reg |-> ToReg(ObsFn(e.reg)), ok |-> Clean(ObsFn(e.reg))]
          /\ l' = l + 1
 
 TDone == /\ l = Len(Trace) + 1
